@@ -329,7 +329,7 @@ class Cut:
                     return EV(v), [v >= 0]
                 v, bi, bn = z3.Real(f"T!{q}"), z3.Bool(f"Tinf!{q}"), z3.Bool(f"Tnan!{q}")
                 return EV(v, bi, bn), [z3.Implies(bi, z3.Or(v == 1, v == -1))]
-            out.append(ex.define(('cutprod', self.k, keys[j]), make))
+            out.append(ex.define(('cutprod', j < self.k, keys[j]), make))
         return npmodel.Arr(out)
 
 
